@@ -20,6 +20,11 @@ theorem full_window_wakes_on_ack :
 theorem sync_waits_bounded :
     sel_waitForSync.all (·.hasTimer) = true ∧ sel_proceedAfterTime.all (·.hasTimer) = true := by decide
 
+/-- in the receive loop the resend ticker is reset only inside the ACK/NACK arm
+    of a type switch (`resetsOnResponse` is the rule the code implements) -/
+theorem resend_reset_only_on_response :
+    typecases_resendReset_recvLoop = ["*PacketACK,*PacketNACK"] := by decide
+
 theorem timeouts : gbn_minimumResendTimeout = some 1000000000 ∧ gbn_awaitingTimeoutMultiplier = some 3 := by decide
 
 end Lnc.Inst.C06
